@@ -524,6 +524,9 @@ def requests_corr(ctx, falcon, testing, model, base, root, listing, quick):
         for k, rv in enumerate(plain + [r for r in RANGES if r]):
             cases.append((0, '/static/' + rel, rv, None, ('wsgi', 'asgi', 'direct')[k % 3]))
     cases += combined_block(rng)
+    for k, (ci, url, kind) in enumerate(long_block()):
+        ctx.count('long-remainder')
+        cases.append((ci, url, (None, 'bytes=0-0')[k % 2], None, ('wsgi', 'asgi', 'direct')[k % 3]))
     # If-Modified-Since just before / at / just after every file's mtime
     for p, v in sorted(listing.items()):
         if p.startswith(root + '/'):
@@ -550,6 +553,7 @@ def requests_corr(ctx, falcon, testing, model, base, root, listing, quick):
 
 MEDIA_TYPES = {}
 ROUTES = {}
+MAX_LEN = [512]
 BAD_DATES = ['yesterday', 'Thu, 99 Foo 2020 25:61:61 GMT', '1600000000', 'Sun, 13 Sep 2020']
 BAD_RANGES = ['bytes=x-y', 'bytes', 'bytes=5-2', 'bytes=0-0,2-3']
 
@@ -624,6 +628,37 @@ HEADER_COMBOS = [(None, None), (MTIME - 100, None), ('BAD', None), (None, 'bytes
                  (MTIME + 10 ** 7, 'BADR'), ('BAD', 'bytes=0-1')]
 
 
+def long_block():
+    """Over-long RAW remainders (the length test is on req.path[len(prefix):], before normpath)
+    that normalise to short existing / missing paths, at the boundary lengths 511/512/513 and
+    beyond.  -> (config index, url path, kind)"""
+    out = []
+    for target in ('a', 'sub/inner.txt', 'nope.txt', 'index.html'):
+        for total in (511, 512, 513, 514, 600, 1200, 2000):
+            room = total - len(target)
+            fillers = {
+                'dot-slash': './' * (room // 2) + ('sub/../' if room % 2 else ''),
+                'up-and-down': 'sub/../' * (room // 7) + './' * ((room % 7) // 2) + ('sub/../' if (room % 7) % 2 else ''),
+            }
+            for kind, fill in fillers.items():
+                # exact raw length: trim the filler from the front in whole './' steps, pad with '.'-free 'sub/../'
+                rem = fill + target
+                while len(rem) > total:
+                    rem = rem[2:] if rem.startswith('./') else rem[7:]
+                while len(rem) < total:
+                    rem = './' + rem
+                if len(rem) != total:
+                    rem = rem[1:] if rem.startswith('./') and len(rem) == total + 1 and False else rem
+                for ci in (0, 1):
+                    for enc in (False, True):
+                        url = '/static/' + (rem.replace('./', '%2e/') if enc else rem)
+                        out.append((ci, url, '%s-%d%s' % (kind, len(rem), '-enc' if enc else '')))
+            # trailing '/.' (always rejected: the remainder ends with a dot) and doubled separators
+            out.append((0, '/static/' + target + '/.' * ((total - len(target)) // 2), 'trailing-dot-%d' % total))
+            out.append((0, '/static/' + 'sub//' * 3 + './' * ((total - len(target) - 15) // 2) + target, 'double-slash-%d' % total))
+    return out
+
+
 def combined_block(rng):
     """every not-found path class x header combination x {WSGI, ASGI, responder}; and existing
     files with malformed headers (documented outcome: 400, the date before the range)."""
@@ -650,6 +685,8 @@ def run_cases(ctx, falcon, testing, model, configs, one, cases, listing, files_w
     wires, obs = [], []
     if not MEDIA_TYPES:
         MEDIA_TYPES.update(falcon.ResponseOptions().static_media_types)
+        from falcon.routing.static import StaticRoute as _SR
+        MAX_LEN[0] = _SR._MAX_NON_PREFIXED_LEN
     if not ROUTES or ROUTES.get('configs') is not configs:
         from falcon.routing.static import StaticRoute
         ROUTES.clear()
@@ -756,6 +793,12 @@ def run_cases(ctx, falcon, testing, model, configs, one, cases, listing, files_w
         if status not in (200, 206, 304, 400, 404, 416) or (not opened and status != 404):
             ctx.violation('not-404', dict(detail, what='a request that served no file was not answered 404'),
                           key='not-404-%s' % status)
+        # (2b') binding: an over-long RAW remainder is a 404 with nothing opened, whatever it normalises to
+        if (mode == 'direct' or matched) and rpath.startswith(pfx_of(configs[ci])) \
+                and len(rpath) - len(pfx_of(configs[ci])) > MAX_LEN[0] and (opened or status != 404):
+            ctx.violation('over-long-served', dict(detail, raw_remainder_length=len(rpath) - len(pfx_of(configs[ci])),
+                                                   what='an over-long request path was not answered 404'),
+                          key='over-long')
         # (2c) binding: 400 only for a malformed date / range on a file that was really opened, and then always
         served_real = bool(opened) and opened[-1] in listing
         bad_date = ims_class(ims) == ('bad',)
